@@ -73,6 +73,11 @@ FRAME_MENU = tuple(itertools.product(PATHS, LINES, FUNCS, SOURCES))        # 128
 # every source kind with two different (path, function) surroundings
 SMALL_MENU = tuple((PATHS[(i + j) % 4], LINES[(i + j) % 2], FUNCS[(i + 2 * j) % 4], SOURCES[i])
                    for j in range(2) for i in range(4))
+# medium menu for the thorough tier's 3-frame texts: paths x functions x sources fully crossed (64 entries);
+# only the line number (crossed with everything else in the 0-2 frame texts) follows from the other indices
+MEDIUM_MENU = tuple((p, LINES[(i + j + k) % 2], f, s) for i, p in enumerate(PATHS)
+                    for j, f in enumerate(FUNCS) for k, s in enumerate(SOURCES))
+MENUS = {'full': FRAME_MENU, 'medium': MEDIUM_MENU, 'small': SMALL_MENU}
 EXC_MENU = tuple(itertools.product(EXC_TYPES, MESSAGES))                     # 21
 
 
@@ -103,6 +108,7 @@ _PIECES = {}
 def pieces():
     if not _PIECES:
         _PIECES['f'] = {fr: frame_text(fr) for fr in FRAME_MENU}
+        assert set(MEDIUM_MENU) <= set(FRAME_MENU) and set(SMALL_MENU) <= set(FRAME_MENU)
         _PIECES['e'] = {ex: exc_text(ex) for ex in EXC_MENU}
         # harness self-check: the pieces concatenate to what the interpreter prints for a whole traceback
         fr = [FRAME_MENU[5], FRAME_MENU[0], FRAME_MENU[127]]
@@ -211,18 +217,21 @@ def text_units(tier):
     if tier == 'quick':
         units.append(('small', 3, ()))
     else:
-        units += [('full', 3, (i,)) for i in range(len(FRAME_MENU))]
+        units += [('medium', 3, (i,)) for i in range(len(MEDIUM_MENU))]
+        units += [('small', 4, (i,)) for i in range(len(SMALL_MENU))]
     return units
 
 
 def unit_frames(unit):
     menu_name, n, prefix = unit
-    menu = FRAME_MENU if menu_name == 'full' else SMALL_MENU
-    if n == 2 and menu_name == 'full':
+    menu = MENUS[menu_name]
+    if n == 2 and prefix:
         firsts = menu[prefix[0]:prefix[0] + 8]
         return ([a, b] for a in firsts for b in menu)
-    if n == 3 and menu_name == 'full':
-        return ([menu[prefix[0]], b, c] for b in menu for c in menu)
+    if prefix:
+        # more than three identical consecutive entries are not what the interpreter prints (it collapses them)
+        return ([menu[prefix[0]]] + list(t) for t in itertools.product(menu, repeat=n - 1)
+                if n < 4 or len(set(t) | {menu[prefix[0]]}) > 1)
     return (list(t) for t in itertools.product(menu, repeat=n))
 
 
@@ -441,12 +450,13 @@ def first_difference(want, got, window=4):
             {'from_line': lo, 'lines': g[lo:i + window], 'total_lines': len(g)})
 
 
-def compare_program(e, want, exc):
+def compare_program(e, want, exc, contextual=True):
     """Compare everything tbutils says about exception e with the interpreter's view `want`.
     Returns list of (sig, expected, observed)."""
     from boltons import tbutils
     out = []
     seen = set()
+    current = [None, None]
 
     def report(cls, member, what, exp, obs):
         # The Contextual* classes inherit every member compared here: a disagreement they merely inherit
@@ -458,11 +468,9 @@ def compare_program(e, want, exc):
         out.append(('C16|fn:%s.%s|%s' % (cls, member, what), exp, obs))
 
     def guarded(cls, member, fn):
+        current[:] = [cls, member]
         try:
-            with budget():
-                return True, fn()
-        except _Budget:
-            report(cls, member, 'no_termination', 'a result', 'no result within %.0f s' % CASE_BUDGET_S)
+            return True, fn()
         except Exception as err:
             report(cls, member, 'raised', 'a result', '%s: %s' % (type(err).__name__, err))
         return False, None
@@ -501,9 +509,8 @@ def compare_program(e, want, exc):
         exp, obs = first_difference(want['full'], got)
         report(cls, member, 'tb_lines', exp, obs)
 
-    tb = e.__traceback__
-    for cls_tb, cls_ei in ((tbutils.TracebackInfo, tbutils.ExceptionInfo),
-                           (tbutils.ContextualTracebackInfo, tbutils.ContextualExceptionInfo)):
+    def compare_classes(cls_tb, cls_ei):
+        tb = e.__traceback__
         tn, en = cls_tb.__name__, cls_ei.__name__
         ok, tbi = guarded(tn, 'from_traceback', lambda: cls_tb.from_traceback(tb))
         if ok:
@@ -515,7 +522,7 @@ def compare_program(e, want, exc):
                 compare_tb(tn, 'get_formatted', txt)
         ok, ei = guarded(en, 'from_exc_info', lambda: cls_ei.from_exc_info(type(e), e, tb))
         if not ok:
-            continue
+            return
         ok2, fr = guarded(en, 'from_exc_info', lambda: tb_frames(ei.tb_info))
         if ok2 and fr != want['frames']:
             report(en, 'from_exc_info', 'frames', want['frames'], fr)
@@ -526,25 +533,34 @@ def compare_program(e, want, exc):
         if ok2:
             compare_exc_line(en, 'get_formatted_exception_only', txt)
         ok2, d = guarded(en, 'to_dict', ei.to_dict)
-        if ok2:
-            try:
-                back = json.loads(json.dumps(d))
-            except (TypeError, ValueError) as err:
-                report(en, 'to_dict', 'json', 'JSON-serialisable', repr(err))
-                continue
-            if back != d:
-                report(en, 'to_dict', 'json', d, back)
-            try:
-                fr = [[f['module_path'], f['lineno'], f['func_name'], (f['line'] or '').strip()]
-                      for f in d['exc_tb']['frames']]
-            except Exception as err:
-                fr = repr(err)
-            if fr != want['frames']:
-                report(en, 'to_dict', 'frames', want['frames'], fr)
+        if not ok2:
+            return
+        try:
+            back = json.loads(json.dumps(d))
+        except (TypeError, ValueError) as err:
+            report(en, 'to_dict', 'json', 'JSON-serialisable', repr(err))
+            return
+        if back != d:
+            report(en, 'to_dict', 'json', d, back)
+        try:
+            fr = [[f['module_path'], f['lineno'], f['func_name'], (f['line'] or '').strip()]
+                  for f in d['exc_tb']['frames']]
+        except Exception as err:
+            fr = repr(err)
+        if fr != want['frames']:
+            report(en, 'to_dict', 'frames', want['frames'], fr)
+
+    try:
+        with budget():                  # one hang guard per program
+            compare_classes(tbutils.TracebackInfo, tbutils.ExceptionInfo)
+            if contextual:
+                compare_classes(tbutils.ContextualTracebackInfo, tbutils.ContextualExceptionInfo)
+    except _Budget:
+        report(current[0], current[1], 'no_termination', 'a result', 'no result within %.0f s' % CASE_BUDGET_S)
     return out
 
 
-def check_program(root, chain, exc):
+def check_program(root, chain, exc, contextual=True):
     """Generate, load and run one program; compare tbutils with the interpreter.
     Returns (list of (sig, expected, observed, tags), info)."""
     sys.dont_write_bytecode = True
@@ -555,7 +571,7 @@ def check_program(root, chain, exc):
             raise RuntimeError('generated program did not raise a plain exception: %r' % (e,))
         want = interpreter_view(e)
         tags = ['frame_repeated_more_than_3_times'] if want['collapsed'] else []
-        out = [(sig, exp, obs, tags) for sig, exp, obs in compare_program(e, want, exc)]
+        out = [(sig, exp, obs, tags) for sig, exp, obs in compare_program(e, want, exc, contextual)]
         info = {'frames': len(want['frames']), 'collapsed': want['collapsed']}
     finally:
         unload_program(name, path)
@@ -572,13 +588,14 @@ def program_chains(tier):
         yield from itertools.product(DEEP_LINKS, repeat=n)
 
 
-def program_shard_fn(root):
+def program_shard_fn(root, contextual_maxlen):
     def shard(chains):
         t = inputs.Tally()
         for chain in chains:
             for exc in EXC_KINDS:
-                case = {'part': 'programs', 'chain': list(chain), 'exc': exc}
-                res, info = check_program(root, chain, exc)
+                case = {'part': 'programs', 'chain': list(chain), 'exc': exc,
+                        'contextual': len(chain) <= contextual_maxlen}
+                res, info = check_program(root, chain, exc, case['contextual'])
                 t.count(nontrivial=len(chain) >= 1, sample=case if len(chain) >= 2 else None)
                 t.add('frames_compared', info['frames'])
                 if info['collapsed']:
@@ -608,7 +625,8 @@ def run(ctx):
     root = core.scratch_dir('c16')
     try:
         chains = list(program_chains(ctx.tier))
-        inputs.run_shards(ctx, program_shard_fn(root), contiguous(chains, 64), part='programs',
+        ctx_maxlen = 2 if ctx.quick() else 3
+        inputs.run_shards(ctx, program_shard_fn(root, ctx_maxlen), contiguous(chains, 64), part='programs',
                           rule='at least one link between run() and the raising function')
     finally:
         shutil.rmtree(root, ignore_errors=True)
@@ -619,7 +637,8 @@ def run(ctx):
     quick = ctx.quick()
     cov['bounds'] = {
         'texts': {'frames': '0-2 over the full 128-entry frame menu' + (
-                      ', 3 over the 8-entry reduced menu' if quick else ', 3 over the full menu'),
+                      ', 3 over the 8-entry reduced menu' if quick else
+                      ', 3 over the 64-entry medium menu, 4 over the 8-entry reduced menu'),
                   'paths': PATHS, 'linenos': LINES, 'functions': FUNCS, 'source_lines': SOURCES,
                   'exception_types': EXC_TYPES, 'messages': MESSAGES},
         'markers': {'marker_lines': MARKERS, 'placement': 'every non-empty subset of the source-bearing frames',
@@ -627,8 +646,8 @@ def run(ctx):
         'programs': {'links': LINKS, 'chain_length': '0-3 over all links, 4 over %s' % (DEEP_LINKS,) if quick
                      else '0-4 over all links, 5-6 over %s' % (DEEP_LINKS,),
                      'exception_kinds': RAISE,
-                     'classes': ['TracebackInfo', 'ExceptionInfo', 'ContextualTracebackInfo',
-                                 'ContextualExceptionInfo']},
+                     'classes': 'TracebackInfo, ExceptionInfo for every program; ContextualTracebackInfo, '
+                                'ContextualExceptionInfo for chains of length <= %d' % (2 if quick else 3)},
     }
     ctx.assumptions += [
         'oracle for live programs is CPython %d.%d traceback.extract_tb/format_tb/format_exception_only; lines '
@@ -652,7 +671,7 @@ def replay(ctx, data):
         return msgs
     root = core.scratch_dir('c16-replay')
     try:
-        res, _ = check_program(root, tuple(case['chain']), case['exc'])
+        res, _ = check_program(root, tuple(case['chain']), case['exc'], case.get('contextual', True))
     finally:
         shutil.rmtree(root, ignore_errors=True)
     for sig, exp, obs, tags in res:
